@@ -28,6 +28,9 @@ fn run_case(family: &str, args: &[u128]) -> Vec<u128> {
         "encode" => proto::encode(args),
         "decode" => proto::decode(args),
         "validate" => proto::validate(args),
+        "agree_enc" => proto::agree_enc(args),
+        "agree_dec" => proto::agree_dec(args),
+        "agree_ob" => proto::agree_ob(args),
         _ => panic!("unknown family {family}"),
     }
 }
